@@ -392,7 +392,7 @@ def shards(tier):
 
 def run_shard(spec, ctx):
     tsets = _strategies()
-    n = max(16, int(ctx.pick(420, 5600) * _SCALE))
+    n = max(16, int(ctx.pick(420, 7000) * _SCALE))
     rec = core.Rec()
     core.hyp_shard(tsets(3, 14), check_case, ctx, n // 2, rec=rec, tag="small")
     if rec.violations:
